@@ -47,6 +47,16 @@ def shape_problem(css, o):
         m = re.search(r'[ \t]+[{};:,]|[{};:,][ \t]+', decls) or re.search(r'[ \t]+[{},>+~]|[{},>+~][ \t]+', sels)
         if m:
             return 'minified output has an optional blank next to %r' % m.group(0)
+        if not o.get('xminify'):
+            # '-X: minify, no end of block newlines': plain minify ends every top-level block with a newline
+            depth = 0
+            for i, ch in enumerate(body):
+                if ch == '{':
+                    depth += 1
+                elif ch == '}':
+                    depth -= 1
+                    if depth == 0 and i + 1 < len(body) and body[i + 1] != '\n':
+                        return 'minified (not xminified) output: a top-level block is not followed by a newline: %r' % body[max(0, i - 20):i + 10]
     else:
         unit = '\t' if o.get('tabs') else ' ' * int(o.get('spaces', 1))
         depth = 0
@@ -67,6 +77,40 @@ def shape_problem(css, o):
             elif line.count(';') > 1:
                 return 'two declarations on one line: %r' % line
     return None
+
+
+def squeeze(css):
+    """the output with insignificant whitespace removed: runs collapsed, none next to { } : ; , > + ~ or at the ends; strings kept"""
+    strs = []
+
+    def keep(m):
+        strs.append(m.group(0))
+        return '\x00%d\x00' % (len(strs) - 1)
+    body = re.sub(r'"[^"]*"|\'[^\']*\'', keep, css)
+    body = re.sub(r'\s+', ' ', body)
+    body = re.sub(r' ?([{};:,>+~]) ?', r'\1', body).strip()
+    return re.sub(r'\x00(\d+)\x00', lambda m: strs[int(m.group(1))], body)
+
+
+def feature_program(rng):
+    """stylesheets with LESS features whose evaluation leaves holes: mixin programs, rules / @media blocks / keyframes that print nothing
+    (empty 'hook' mixins, guards that fail, unknown mixins, variables only) in front of, between and after ordinary rules"""
+    g = S.Gen(rng, ['media', 'amp', 'attr', 'var', 'keyframes'])
+    sh = g.mixin_program() if rng.random() < 0.5 else g.sheet(nunits=rng.choice([2, 3]), depth=rng.randint(1, 2))
+    extra = ['.gq(@x) when (@x > 5) { width: @x }\n', '.nothing() {}\n']
+    for j in range(rng.randint(1, 4)):
+        body = [rng.choice(['@w: 3;', '.gq(2);', '.nothing();', '.no-such-mixin();', '@k: 2px;']) for _ in range(rng.randint(1, 3))]
+        body.sort(key=lambda b: 0 if b.startswith('@') else 1)
+        sel = rng.choice(['.e%d' % j, '.e%d .in' % j, 'p.e%d, .f%d' % (j, j)])
+        inner = ' '.join(body)
+        extra.append(rng.choice(['%s { %s }\n' % (sel, inner), '.o%d { color: red; %s { %s } }\n' % (j, sel, inner), '@media print { %s { %s } }\n' % (sel, inner),
+                                 '@media screen { %s { %s } .k%d { top: 0; } }\n' % (sel, inner, j), '.o%d { @media print { %s } left: 0; }\n' % (j, inner),
+                                 '@media print { %s { %s } @media (min-width: 10px) { %s { %s } } }\n' % (sel, inner, sel, inner)]))
+    rng.shuffle(extra)
+    for e in extra:
+        sh.insert(rng.randint(0, len(sh)), ('stmt', [e]))
+    sh.append(('stmt', ['.tail%d { bottom: 0; .t { top: 1px; } }\n' % rng.randrange(9)]))
+    return S.show(sh, S.Layout(rng)) if S.sel_count(sh) <= 30 else None
 
 
 def cli_flags(o):
@@ -107,6 +151,36 @@ def run(ctx):
         why = shape_problem(a['css'], c['opts'])
         if why:
             out['spec_mismatch'].append({'input': {'text': c['text'], 'opts': c['opts']}, 'impl': a, 'spec': 'shape: ' + why, 'classes': []})
+    # ---- programs with LESS features (outside the formatter theorem's trees), real compiler only: documented shape under a sample of option
+    # vectors, and all outputs of one program equal once insignificant whitespace is removed
+    nf = (30 if ctx['tier'] == 'quick' else 600) * ctx.get('mult', 1)
+    progs = []
+    while len(progs) < nf:
+        t = feature_program(rng)
+        if t:
+            progs.append(t)
+    fixed = [{'minify': False, 'xminify': False, 'tabs': False, 'spaces': 1}, {'minify': False, 'xminify': False, 'tabs': True, 'spaces': 2},
+             {'minify': True, 'xminify': False, 'tabs': False, 'spaces': 2}, {'minify': False, 'xminify': True, 'tabs': False, 'spaces': 2}]
+    fjobs = [(t, o) for t in progs for o in fixed + rng.sample(SC.ALL_OPTS, 3)]
+    with impl.Pool() as pool:
+        fans = pool.run([{'kind': 'compile', 'text': t, 'opts': SC.impl_opts(o)} for t, o in fjobs])
+    first = {}
+    fshapes = 0
+    for (t, o), a in zip(fjobs, fans):
+        if a.get('r') != 'ok':
+            continue
+        fshapes += 1
+        why = shape_problem(a['css'], o)
+        if why:
+            out['spec_mismatch'].append({'input': {'text': t, 'opts': o}, 'impl': a, 'spec': 'shape: ' + why, 'classes': []})
+            continue
+        sq = squeeze(a['css'])
+        if t in first and first[t][0] != sq:
+            out['spec_mismatch'].append({'input': {'text': t, 'opts': o, 'other_opts': first[t][1]}, 'impl': a,
+                                         'spec': 'outputs under two option vectors differ in more than insignificant whitespace: ' + first[t][0][:300], 'classes': []})
+        first.setdefault(t, (sq, o))
+    out['evaluations'] += fshapes
+    out.setdefault('distribution', {})['feature_programs_shape_and_squeeze'] = [len(progs), fshapes]
     # command line
     scratch = tempfile.mkdtemp(prefix='lessverif-c11-')
     cli = 0
